@@ -2,9 +2,23 @@
 //! its registry metadata in `/// @harness`, `/// @shape`, `/// @aims` doc lines, which tools/hand_registry.py
 //! reads; the unwind bound is the one given in the module's `harnesses!` list.
 pub mod base;
+pub mod c07;
+pub mod c11;
+pub mod c15;
+pub mod c16;
+pub mod c17;
 pub mod c18;
+pub mod c19;
+pub mod c20;
 
 pub fn extend(v: &mut Vec<(&'static str, crate::Body)>) {
     v.extend_from_slice(base::REG);
+    v.extend_from_slice(c07::REG);
+    v.extend_from_slice(c11::REG);
+    v.extend_from_slice(c15::REG);
+    v.extend_from_slice(c16::REG);
+    v.extend_from_slice(c17::REG);
     v.extend_from_slice(c18::REG);
+    v.extend_from_slice(c19::REG);
+    v.extend_from_slice(c20::REG);
 }
